@@ -512,7 +512,7 @@ class CallMixin:
     # ------------------------------------------------------------------ builtins
     def builtin_call(self, st, name, pos, kws, node, k):
         if name == "len":
-            v = pos[0]
+            v = self.narrow(st, pos[0])
             if v.meta and v.meta[0] == "tuple":
                 return k(st, sv_int(len(v.meta[1])))
             if v.meta and v.meta[0] == "pyconst" and hasattr(v.meta[1], "__len__"):
@@ -608,7 +608,7 @@ class CallMixin:
                 return k(st, sv_int(r))
             raise Unsupported(f"str.{m}")
         if ty == "list":
-            n = self.list_len(st, base.t)
+            n = self.name_int(st, self.list_len(st, base.t), "len")
             items = self.list_items(st, base.t)
             if m == "append":
                 self.set_list(st, base.t, z3.Store(items, n, pos[0].t), n + 1)
@@ -619,7 +619,7 @@ class CallMixin:
             if m == "pop":
                 if pos:
                     i0 = smt.N(pos[0])
-                    i = z3.If(i0 < 0, i0 + n, i0)
+                    i = self.name_int(st, z3.If(i0 < 0, i0 + n, i0), "idx")
                 else:
                     i = n - 1
                 ok = z3.And(i >= 0, i < n)
@@ -631,6 +631,7 @@ class CallMixin:
                     j = z3.Int(f"j!pop{self._qid()}")
                     s1.assume(z3.ForAll([j], z3.Implies(z3.And(j >= 0, j < i), arr[j] == items[j]), patterns=[arr[j]]))
                     s1.assume(z3.ForAll([j], z3.Implies(z3.And(j >= i, j < n - 1), arr[j] == items[j + 1]), patterns=[arr[j]]))
+                    s1.assume(z3.ForAll([j], z3.Implies(z3.And(j > i, j < n), arr[j - 1] == items[j]), patterns=[items[j]]))
                     self.set_list(s1, base.t, arr, n - 1)
                     return k(s1, ret)
 
@@ -638,12 +639,13 @@ class CallMixin:
             if m == "insert":
                 i0 = smt.N(pos[0])
                 i1 = z3.If(i0 < 0, i0 + n, i0)
-                i = z3.If(i1 < 0, z3.IntVal(0), z3.If(i1 > n, n, i1))
+                i = self.name_int(st, z3.If(i1 < 0, z3.IntVal(0), z3.If(i1 > n, n, i1)), "idx")
                 arr = smt.fresh("ins", z3.ArraySort(IntS, Val))
                 j = z3.Int(f"j!ins{self._qid()}")
                 st.assume(z3.ForAll([j], z3.Implies(z3.And(j >= 0, j < i), arr[j] == items[j]), patterns=[arr[j]]))
                 st.assume(arr[i] == pos[1].t)
                 st.assume(z3.ForAll([j], z3.Implies(z3.And(j >= i, j < n), arr[j + 1] == items[j]), patterns=[items[j]]))
+                st.assume(z3.ForAll([j], z3.Implies(z3.And(j > i, j <= n), arr[j] == items[j - 1]), patterns=[arr[j]]))
                 self.set_list(st, base.t, arr, n + 1)
                 return k(st, SV_NONE)
             if m == "extend":
